@@ -23,10 +23,15 @@ Vectors ==
   \cup {<<a, b>> : a \in {"WORD", "SEVEN", "EMPTY"}, b \in Numeric \cup {"FRAC", "BLANK", "EXPEMPTY", "PLUS", "EPOCH", "BADDATE", "TS14BAD", "TS14YR1", "ATEXP", "DIGITS", "DEEP"}}
   \cup {<<a, b, c>> : a \in {"WORD", "EMPTY"}, b \in {"SEVEN", "NEG", "HUGE"}, c \in {"EMPTY", "EXPEMPTY", "WORD", "DIGITS"}}
 
+\* four-argument calls (text, delimiter, position / start, limit / length), on the plain title only
+Vectors4 ==
+  {<<a, b, c, d>> : a \in {"WORDS", "WORD"}, b \in {"BLANK", "EMPTY"}, c \in {"ZERO", "THREE", "SEVEN", "NEG1", "HUGE", "WORD"},
+                    d \in {"ONE", "TWO", "NEG", "EMPTY", "WORD"}}
 St(ph, name, argv, title) == [ph |-> ph, name |-> name, argv |-> argv, title |-> title]
 Init == x = St("root", "", <<>>, "plain")
 PickName == x.ph = "root" /\ \E n \in Names : x' = St("fn", n, <<>>, "plain")
-MakeCall == x.ph = "fn" /\ \E v \in Vectors, t \in Titles : x' = St("call", x.name, v, t)
+MakeCall == x.ph = "fn" /\ (\/ \E v \in Vectors, t \in Titles : x' = St("call", x.name, v, t)
+                            \/ \E v \in Vectors4 : x' = St("call", x.name, v, "plain"))
 Next == PickName \/ MakeCall
 Spec == Init /\ [][Next]_x
 
